@@ -1115,6 +1115,9 @@ class SymEx:
             # loop-carried heap locations: first pass to discover which are written
             if is_for:
                 bind_val = ('elem', it, lid)
+                while it[0] == 'call' and it[1] == ('ext', 'builtins.iter') and len(it[2]) == 1 and not it[3]:
+                    it = it[2][0]               # for x in iter(xs) visits xs
+                    bind_val = ('elem', it, lid)
                 dview = None
                 if it[0] == 'call' and it[1][0] == 'meth' and it[1][1] in ('items', 'values', 'keys') and len(it[2]) == 1 and it[2][0][0] == 'comp' and it[2][0][1] == 'dict':
                     dview, dcomp = it[1][1], it[2][0]
